@@ -40,7 +40,8 @@ Record step_ok (sh : qshared) (lo : qlocals) (sh' : qshared) (lo' : qlocals) : P
                        ((new = [] /\ nextid sh' = nextid sh) \/
                         (exists e, new = [e] /\ ceid e = nextid sh /\ nextid sh' = S (nextid sh)));
   so_log : filter is_disp (clog sh) = map disp_act (g_disp sh) ->
-           filter is_disp (clog sh') = map disp_act (g_disp sh')
+           filter is_disp (clog sh') = map disp_act (g_disp sh');
+  so_cnt : cec sh' = cec sh /\ cnc sh' = cnc sh      (* local code never touches the two atomic counters *)
 }.
 
 (* ---------- weakest precondition, other threads' interference = any shared state ---------- *)
@@ -123,6 +124,7 @@ Proof.
   intros H1 H2. split.
   - exists []. unfold inflight, levl. rewrite H1, H2. cbn [app]. split; [reflexivity|]. split; [apply Permutation_refl|]. left; auto.
   - auto.
+  - auto.
 Qed.
 
 
@@ -131,12 +133,13 @@ Lemma dispatch_all_fields t es : forall sh,
   g_enq (dispatch_all t sh es) = g_enq sh /\
   g_taken (dispatch_all t sh es) = g_taken sh /\ g_cleared (dispatch_all t sh es) = g_cleared sh /\
   g_disp (dispatch_all t sh es) = rev (map (pair t) es) ++ g_disp sh /\
-  filter is_disp (clog (dispatch_all t sh es)) = map disp_act (rev (map (pair t) es)) ++ filter is_disp (clog sh).
+  filter is_disp (clog (dispatch_all t sh es)) = map disp_act (rev (map (pair t) es)) ++ filter is_disp (clog sh) /\
+  cec (dispatch_all t sh es) = cec sh /\ cnc (dispatch_all t sh es) = cnc sh.
 Proof.
   unfold dispatch_all. induction es as [|e r IH]; intros sh; cbn [fold_left map rev app].
   - repeat split; reflexivity.
-  - destruct (IH (sh_disp sh t e)) as (A & B & C & D & E & F & G & H). cbn [ql fl nextid g_enq g_taken g_cleared g_disp clog sh_disp] in *.
-    rewrite A, B, C, D, E, F, G, H. repeat split; try reflexivity.
+  - destruct (IH (sh_disp sh t e)) as (A & B & C & D & E & F & G & H & I1 & I2). cbn [ql fl nextid g_enq g_taken g_cleared g_disp clog sh_disp cec cnc] in *.
+    rewrite A, B, C, D, E, F, G, H, I1, I2. repeat split; try reflexivity.
     + rewrite <- app_assoc. reflexivity.
     + rewrite map_app. cbn [filter is_disp map disp_act fst snd app]. rewrite <- app_assoc. reflexivity.
 Qed.
@@ -146,12 +149,13 @@ Lemma take_all_fields t es : forall sh,
   ql (take_all t sh es) = ql sh /\ fl (take_all t sh es) = fl sh /\ nextid (take_all t sh es) = nextid sh /\
   g_enq (take_all t sh es) = g_enq sh /\
   g_disp (take_all t sh es) = g_disp sh /\ g_cleared (take_all t sh es) = g_cleared sh /\ clog (take_all t sh es) = clog sh /\
-  g_taken (take_all t sh es) = rev (map (pair t) es) ++ g_taken sh.
+  g_taken (take_all t sh es) = rev (map (pair t) es) ++ g_taken sh /\
+  cec (take_all t sh es) = cec sh /\ cnc (take_all t sh es) = cnc sh.
 Proof.
   unfold take_all. induction es as [|e r IH]; intros sh; cbn [fold_left map rev app].
   - repeat split; reflexivity.
-  - destruct (IH (sh_take sh t e)) as (A & B & C & D & E & F & G & H). cbn [ql fl nextid g_enq g_taken g_cleared g_disp clog sh_take] in *.
-    rewrite A, B, C, D, E, F, G, H. repeat split; try reflexivity. rewrite <- app_assoc. reflexivity.
+  - destruct (IH (sh_take sh t e)) as (A & B & C & D & E & F & G & H & I1 & I2). cbn [ql fl nextid g_enq g_taken g_cleared g_disp clog sh_take cec cnc] in *.
+    rewrite A, B, C, D, E, F, G, H, I1, I2. repeat split; try reflexivity. rewrite <- app_assoc. reflexivity.
 Qed.
 
 Lemma map_snd_pair (t : nat) (es : list cevt) : map snd (map (pair t) es) = es.
@@ -258,11 +262,11 @@ Ltac perm :=
 Ltac so_fields :=
   try (match goal with |- context[dispatch_all ?t ?sh ?es] =>
          let H := fresh "D" in pose proof (dispatch_all_fields t es sh) as H;
-         destruct H as (?D1 & ?D2 & ?D3 & ?D4 & ?D5 & ?D6 & ?D7 & ?D8) end);
+         destruct H as (?D1 & ?D2 & ?D3 & ?D4 & ?D5 & ?D6 & ?D7 & ?D8 & ?D9 & ?D10) end);
   try (match goal with |- context[fold_left (fun s e => sh_take s ?t e) ?es ?sh] =>
          change (fold_left (fun s e => sh_take s t e) es sh) with (take_all t sh es);
          let H := fresh "T" in pose proof (take_all_fields t es sh) as H;
-         destruct H as (?T1 & ?T2 & ?T3 & ?T4 & ?T5 & ?T6 & ?T7 & ?T8) end).
+         destruct H as (?T1 & ?T2 & ?T3 & ?T4 & ?T5 & ?T6 & ?T7 & ?T8 & ?T9 & ?T10) end).
 
 Ltac rew_fields :=
   repeat match goal with
@@ -279,7 +283,8 @@ Ltac so_solve :=
     rewrite ?map_app, ?map_rev, ?map_snd_pair;
     first [ exists []; split; [reflexivity | split; [cbn [app]; perm | left; split; reflexivity]]
           | eexists [_]; split; [reflexivity | split; [cbn [app]; perm | right; eexists; split; [reflexivity | split; reflexivity]]] ]
-  | sh_simpl; rew_fields; cbn [filter is_disp]; rewrite ?map_app; intros HL; rewrite ?HL; reflexivity ].
+  | sh_simpl; rew_fields; cbn [filter is_disp]; rewrite ?map_app; intros HL; rewrite ?HL; reflexivity
+  | sh_simpl; rew_fields; split; reflexivity ].
 
 Ltac wp2 :=
   first [ wp1
@@ -324,7 +329,7 @@ Qed.
 
 Lemma step_ok_SInv sh lo sh' lo' oth : SInv sh (inflight lo) oth -> step_ok sh lo sh' lo' -> SInv sh' (inflight lo') oth.
 Proof.
-  intros [A B C D] [(new & E1 & E2 & E3) L]. split.
+  intros [A B C D] [(new & E1 & E2 & E3) L _]. split.
   - rewrite E1. perm_goal x. cnt A x. cnt E2 x. lia.
   - intros e He. rewrite E1 in He. apply in_app_or in He. destruct E3 as [[-> E3] | (e0 & -> & I1 & I2)].
     + destruct He as [[]|He]. rewrite E3. auto.
@@ -691,3 +696,272 @@ Theorem logged_dispatches_are_the_ledger progs schedule fuel :
   let sh := shs (reached progs schedule fuel) in
   filter is_disp (clog sh) = map disp_act (g_disp sh).
 Proof. cbv zeta. destruct (conservation_every_schedule progs schedule fuel) as [[A B C D] _]. exact D. Qed.
+
+(* ====================================================================================
+   queueEmptyCounter is exactly the number of processing calls in flight.
+
+   pd code = how many more decrements than increments of queueEmptyCounter the remaining code of
+   a thread will perform (both branches of every conditional must agree, otherwise None).  Every
+   API call starts and ends with pd = 0; in every reachable configuration the counter equals the
+   sum of pd over the threads: it returns to its previous value when a processing call is over,
+   is never negative, and is 0 whenever no thread is between the increment and the decrement. *)
+Local Open Scope Z_scope.
+
+Fixpoint pdi (i : instr) : option Z :=
+  match i with
+  | IAInc EC => Some (-1)
+  | IADec EC => Some 1
+  | IIf _ _ a b =>
+      match (fix pl (l : list instr) : option Z :=
+               match l with [] => Some 0 | j :: r => match pdi j, pl r with Some x, Some y => Some (x + y) | _, _ => None end end) a,
+            (fix pl (l : list instr) : option Z :=
+               match l with [] => Some 0 | j :: r => match pdi j, pl r with Some x, Some y => Some (x + y) | _, _ => None end end) b with
+      | Some x, Some y => if Z.eqb x y then Some x else None
+      | _, _ => None
+      end
+  | _ => Some 0
+  end.
+
+Fixpoint pd (l : list instr) : option Z :=
+  match l with [] => Some 0 | j :: r => match pdi j, pd r with Some x, Some y => Some (x + y) | _, _ => None end end.
+
+Lemma pdi_if r c a b : pdi (IIf r c a b) =
+  match pd a, pd b with Some x, Some y => if Z.eqb x y then Some x else None | _, _ => None end.
+Proof. reflexivity. Qed.
+
+Lemma pd_app a : forall b x y, pd a = Some x -> pd b = Some y -> pd (a ++ b) = Some (x + y).
+Proof.
+  induction a as [|j r IH]; intros b x y Ha Hb; cbn [pd app] in *.
+  - injection Ha as <-. rewrite Hb. reflexivity.
+  - destruct (pdi j) as [u|]; [|discriminate]. destruct (pd r) as [v|] eqn:E; [|discriminate].
+    injection Ha as <-. rewrite (IH b v y eq_refl Hb). f_equal. lia.
+Qed.
+
+Lemma pd_calls c : pd (code_of c) = Some 0.
+Proof. destruct c; vm_compute; reflexivity. Qed.
+
+Lemma pd_wait_loop timed : pd (wait_loop timed) = Some 0.
+Proof. destruct timed; vm_compute; reflexivity. Qed.
+
+Definition th_pd (th : thread) : option Z := pd (code th).
+
+(* advance keeps a thread's pd and does not touch the counter *)
+Lemma advance_pd fuel : forall t sh cd cl l k,
+  wpl cd EndOK l -> pd cd = Some k ->
+  cec (fst (advance fuel t sh (mkTh cd cl l TRun))) = cec sh /\
+  pd (code (snd (advance fuel t sh (mkTh cd cl l TRun)))) = Some k.
+Proof.
+  induction fuel as [|f IH]; intros t sh cd cl l k HW HP.
+  - cbn [advance fst snd code]. auto.
+  - cbn [advance code calls lo]. destruct cd as [|i rest].
+    + cbn [pd] in HP. injection HP as <-. destruct cl as [|c r].
+      * cbn [fst snd code pd]. auto.
+      * apply IH; [apply all_calls_wp | apply pd_calls].
+    + cbn [wpl] in HW. cbn [pd] in HP.
+      destruct (pdi i) as [x|] eqn:Ei; [|discriminate]. destruct (pd rest) as [y|] eqn:Er; [|discriminate].
+      injection HP as <-.
+      destruct i; try (cbn [fst snd code pd]; rewrite Ei, Er; auto).
+      * (* ILocal *)
+        change (wpi (ILocal touches f0) (wpl rest EndOK) l) with
+          (forall t sh, step_ok sh l (fst (f0 t sh l)) (snd (f0 t sh l)) /\ wpl rest EndOK (snd (f0 t sh l))) in HW.
+        destruct (HW t sh) as [H1 H2]. destruct (f0 t sh l) as [sh1 lo1]. cbn [fst snd] in *.
+        cbn [pdi] in Ei. injection Ei as <-.
+        destruct (IH t sh1 rest cl lo1 y H2 Er) as [A B]. split; [|rewrite B; f_equal; lia].
+        rewrite A. apply (so_cnt _ _ _ _ H1).
+      * (* IIf *)
+        rewrite wpi_if in HW. destruct (HW sh) as [Ha Hb]. rewrite pdi_if in Ei.
+        destruct (pd a) as [u|] eqn:Ea; [|discriminate]. destruct (pd b) as [v|] eqn:Eb; [|discriminate].
+        destruct (Z.eqb_spec u v) as [->|]; [|discriminate]. injection Ei as <-.
+        apply IH.
+        -- apply wpl_app. destruct (c sh l); auto.
+        -- destruct (c sh l); apply pd_app; auto.
+      * (* IWaitLoop *)
+        cbn [pdi] in Ei. injection Ei as <-.
+        apply IH; [apply wpl_app; apply neutral_wait_loop; exact HW|].
+        apply (pd_app _ _ 0 y); [apply pd_wait_loop | exact Er].
+      * (* IRes *) cbn [pdi] in Ei. injection Ei as <-. apply (IH t (sh_log sh (CRes t (lres l))) rest cl l y HW Er).
+      * (* IDone *) cbn [pdi] in Ei. injection Ei as <-. apply (IH t (sh_log sh (CDone t)) rest cl l y HW Er).
+Qed.
+
+Fixpoint sum_pd (l : list thread) : option Z :=
+  match l with
+  | [] => Some 0
+  | th :: r => match pd (code th), sum_pd r with Some x, Some y => Some (x + y) | _, _ => None end
+  end.
+
+Definition PInv (cfg : config) : Prop := sum_pd (ths cfg) = Some (cec (shs cfg)).
+
+Lemma sum_pd_app a : forall b x y, sum_pd a = Some x -> sum_pd b = Some y -> sum_pd (a ++ b) = Some (x + y).
+Proof.
+  induction a as [|th r IH]; intros b x y Ha Hb; cbn [sum_pd app] in *.
+  - injection Ha as <-. rewrite Hb. reflexivity.
+  - destruct (pd (code th)) as [u|]; [|discriminate]. destruct (sum_pd r) as [v|] eqn:E; [|discriminate].
+    injection Ha as <-. rewrite (IH b v y eq_refl Hb). f_equal. lia.
+Qed.
+
+Lemma sum_pd_app_inv a : forall b s, sum_pd (a ++ b) = Some s -> exists x y, sum_pd a = Some x /\ sum_pd b = Some y /\ s = x + y.
+Proof.
+  induction a as [|th r IH]; intros b s H; cbn [sum_pd app] in *.
+  - exists 0, s. auto.
+  - destruct (pd (code th)) as [u|]; [|discriminate]. destruct (sum_pd (r ++ b)) as [v|] eqn:E; [|discriminate].
+    injection H as <-. destruct (IH b v E) as (x & y & A & B & ->). rewrite A. exists (u + x), y. repeat split; auto. lia.
+Qed.
+
+Lemma sum_pd_map_code a b : map code a = map code b -> sum_pd a = sum_pd b.
+Proof.
+  revert b; induction a as [|x r IH]; intros [|y s] H; cbn [map] in H; try discriminate; [reflexivity|].
+  injection H as H1 H2. cbn [sum_pd]. rewrite H1, (IH s H2). reflexivity.
+Qed.
+
+Lemma sum_pd_replace ths t th th' s k k' :
+  sum_pd ths = Some s -> nth_error ths t = Some th -> pd (code th) = Some k -> pd (code th') = Some k' ->
+  sum_pd (set_th ths t th') = Some (s + (k' - k)).
+Proof.
+  intros HS HN Hk Hk'. destruct (set_th_split _ _ _ HN) as (l1 & l2 & E & F). rewrite F. subst ths.
+  destruct (sum_pd_app_inv _ _ _ HS) as (x & y & A & B & ->). cbn [sum_pd] in B. rewrite Hk in B.
+  destruct (sum_pd l2) as [z|] eqn:E2; [|discriminate]. injection B as <-.
+  rewrite (sum_pd_app l1 (th' :: l2) x (k' + z) A); [f_equal; lia|]. cbn [sum_pd]. rewrite Hk', E2. reflexivity.
+Qed.
+
+Lemma set_th_same_code ths w wt x :
+  nth_error ths w = Some wt -> code x = code wt -> map code (set_th ths w x) = map code ths.
+Proof.
+  intros HN HL. destruct (set_th_split _ _ _ HN) as (l1 & l2 & E & F). rewrite F, E.
+  rewrite !map_app. cbn [map]. rewrite HL. reflexivity.
+Qed.
+
+Lemma perform_pd_finish fuel cfg t th k sh1 th1 k1 others :
+  PInv cfg -> nth_error (ths cfg) t = Some th -> pd (code th) = Some k ->
+  map code others = map code (ths cfg) ->
+  pd (code th1) = Some k1 -> cec sh1 = cec (shs cfg) + (k1 - k) ->
+  match status th1 with TParked _ => True | TRun => wpl (code th1) EndOK (lo th1) | _ => False end ->
+  PInv (let '(sh2, th2) := match status th1 with TParked _ => (sh1, th1) | _ => advance fuel t sh1 th1 end in
+        mkCfg sh2 (set_th others t th2) (sched cfg) (dead cfg)).
+Proof.
+  unfold PInv. intros HP HN Hk HM Hk1 Hc HW.
+  assert (HN' : exists th', nth_error others t = Some th' /\ code th' = code th).
+  { pose proof (map_nth_error code _ _ HN) as M. rewrite <- HM in M.
+    destruct (nth_error others t) as [th'|] eqn:E.
+    - exists th'. split; [reflexivity|]. rewrite (map_nth_error code _ _ E) in M. congruence.
+    - apply nth_error_None in E. assert (nth_error (map code others) t = None) by (apply nth_error_None; rewrite map_length; exact E). congruence. }
+  destruct HN' as (th' & HN' & HC). rewrite <- (sum_pd_map_code _ _ HM) in HP.
+  assert (Hk' : pd (code th') = Some k) by (rewrite HC; exact Hk).
+  destruct th1 as [cd cl l st]. cbn [status code lo] in *.
+  destruct st as [|timed| |]; try contradiction.
+  - destruct (advance_pd fuel t sh1 cd cl l k1 HW Hk1) as [A B].
+    destruct (advance fuel t sh1 (mkTh cd cl l TRun)) as [sh2 th2]. cbn [fst snd shs ths] in *.
+    rewrite (sum_pd_replace _ _ _ th2 _ _ _ HP HN' Hk' B). f_equal. lia.
+  - cbn [shs ths]. rewrite (sum_pd_replace _ _ _ (mkTh cd cl l (TParked timed)) _ _ _ HP HN' Hk' Hk1). f_equal. lia.
+Qed.
+
+Lemma sum_pd_nth ths t th s : sum_pd ths = Some s -> nth_error ths t = Some th -> exists k, pd (code th) = Some k.
+Proof.
+  intros HS HN. destruct (set_th_split _ _ _ HN) as (l1 & l2 & E & _). subst ths.
+  destruct (sum_pd_app_inv _ _ _ HS) as (x & y & A & B & _). cbn [sum_pd] in B.
+  destruct (pd (code th)) as [k|]; [eauto|discriminate].
+Qed.
+
+Lemma wake_code ths :
+  map code (match first_parked ths 0 (fun x => match status x with TParked _ => true | _ => false end) with
+            | Some w => match nth_error ths w with
+                        | Some wt => set_th ths w (mkTh (code wt) (calls wt) (lo wt) TWoken)
+                        | None => ths
+                        end
+            | None => ths
+            end) = map code ths.
+Proof.
+  destruct (first_parked ths 0 _) as [w|]; [|reflexivity].
+  destruct (nth_error ths w) as [wt|] eqn:HN; [|reflexivity].
+  eapply set_th_same_code; eauto.
+Qed.
+
+Lemma perform_pd t cfg : CInv cfg -> PInv cfg -> PInv (perform t cfg).
+Proof.
+  intros [HS HF] HP. unfold perform. generalize ADV_FUEL. intros fuel.
+  destruct (nth_error (ths cfg) t) as [th|] eqn:HN; [|exact HP].
+  pose proof (proj1 (Forall_forall _ _) HF th (nth_error_In _ _ HN)) as HW. unfold th_wp in HW.
+  destruct (sum_pd_nth _ _ _ _ HP HN) as [k Hk].
+  destruct (status th) eqn:Est; try exact HP.
+  - (* TRun *)
+    destruct (code th) as [|i rest] eqn:Ec; [exact HP|].
+    cbn [wpl] in HW. cbn [pd] in Hk.
+    destruct (pdi i) as [x|] eqn:Ei; [|discriminate]. destruct (pd rest) as [y|] eqn:Er; [|discriminate].
+    injection Hk as <-.
+    assert (Hk0 : pd (code th) = Some (x + y)) by (rewrite Ec; cbn [pd]; rewrite Ei, Er; reflexivity).
+    assert (Hdef : PInv (let '(sh2, th2) := match status th with TParked _ => (shs cfg, th) | _ => advance fuel t (shs cfg) th end in
+                         mkCfg sh2 (set_th (ths cfg) t th2) (sched cfg) (dead cfg))).
+    { apply (perform_pd_finish fuel cfg t th (x + y) (shs cfg) th (x + y) (ths cfg)); auto; [lia|].
+      rewrite Est, Ec. cbn [wpl]. exact HW. }
+    destruct i as [m|m|a|a|a| |timed|tt f|r c u v|timed| | |];
+      try exact Hdef.
+    all: try destruct m; try destruct a.
+    all: cbv beta iota zeta.
+    all: cbn [pdi] in Ei; injection Ei as <-.
+    all: try solve [apply perform_pd_finish with (th := th) (k := 0 + y) (k1 := y); auto; cbn [status code lo cec sh_log sh_oqm sh_ofm sh_ec sh_nc];
+                    try lia; try exact I; try exact HW; try apply HW; try apply wake_code].
+    + apply perform_pd_finish with (th := th) (k := -1 + y) (k1 := y); auto; cbn [status code lo cec sh_log sh_ec]; try lia; exact HW.
+    + apply perform_pd_finish with (th := th) (k := 1 + y) (k1 := y); auto; cbn [status code lo cec sh_log sh_ec]; try lia; exact HW.
+  - (* TWoken *)
+    assert (Hc : cec (sh_oqm (sh_log (shs cfg) (CCvWake t)) (Some t)) = cec (shs cfg) + (k - k)) by (cbn [cec sh_log sh_oqm]; lia).
+    exact (perform_pd_finish fuel cfg t th k _ (mkTh (code th) (calls th) (lo th) TRun) k (ths cfg) HP HN Hk eq_refl Hk Hc HW).
+Qed.
+
+Lemma sched_step_pd cfg cfg' : CInv cfg -> PInv cfg -> sched_step cfg = Some cfg' -> PInv cfg'.
+Proof.
+  intros HC HP. unfold sched_step. destruct (dead cfg); [discriminate|].
+  destruct (next_from_schedule cfg (sched cfg)) as [pick rest].
+  assert (HC1 : CInv (mkCfg (shs cfg) (ths cfg) rest false)) by (destruct cfg; eapply CInv_irrel; exact HC).
+  assert (HP1 : PInv (mkCfg (shs cfg) (ths cfg) rest false)) by exact HP.
+  set (cfg1 := mkCfg (shs cfg) (ths cfg) rest false) in *.
+  destruct (match pick with Some t => Some t | None => lowest_enabled cfg1 end) as [t|].
+  - intros E. injection E as <-. apply perform_pd; assumption.
+  - destruct (first_parked (ths cfg1) 0 _) as [w|] eqn:EP.
+    + destruct (nth_error (ths cfg1) w) as [wt|] eqn:EN; [|discriminate].
+      set (cfg2 := mkCfg _ _ rest (dead cfg1)).
+      assert (HP2 : PInv cfg2).
+      { unfold PInv, cfg2. cbn [shs ths cec sh_log].
+        rewrite (sum_pd_map_code _ (ths cfg1)); [exact HP1|]. eapply set_th_same_code; eauto. }
+      assert (HC2 : CInv cfg2).
+      { destruct HC1 as [HS HF]. subst cfg2.
+        pose proof (first_parked_status _ _ _ _ EP EN) as Pk. cbv beta in Pk.
+        pose proof (proj1 (Forall_forall _ _) HF wt (nth_error_In _ _ EN)) as HW. unfold th_wp in HW.
+        destruct (status wt) as [|timed| |] eqn:Est; try discriminate. destruct timed; [|discriminate].
+        destruct (CInv_replace (shs cfg1) (ths cfg1) w wt (sh_log (shs cfg1) (CTimeout w))
+                               (mkTh (code wt) (calls wt) (lo_to (lo wt) true) TWoken) HS HF EN) as [A B].
+        - intros oth Ho. cbn [lo]. rewrite inflight_lo_to. eapply SInv_ledger_eq; [|exact Ho]. repeat split.
+        - unfold th_wp. cbn [status code lo]. apply HW.
+        - split; assumption. }
+      destruct (th_enabled cfg2 w); intros E; injection E as <-; [apply perform_pd|]; assumption.
+    + destruct (all_finished cfg1); [discriminate|]. intros E. injection E as <-. exact HP1.
+Qed.
+
+Lemma run_sched_pd fuel : forall cfg, CInv cfg -> PInv cfg -> PInv (run_sched fuel cfg).
+Proof.
+  induction fuel as [|f IH]; intros cfg HC HP; cbn [run_sched]; [exact HP|].
+  destruct (sched_step cfg) as [c|] eqn:E; [|exact HP].
+  apply IH; [eapply sched_step_inv | eapply sched_step_pd]; eauto.
+Qed.
+
+Lemma init_pd progs schedule : PInv (mkCfg sh0 (start_threads progs) schedule false).
+Proof.
+  unfold PInv. cbn [shs ths cec sh0]. unfold start_threads.
+  induction progs as [|p r IH]; [reflexivity|]. cbn [map sum_pd code pd pdi]. rewrite IH. reflexivity.
+Qed.
+
+(* queueEmptyCounter = number of processing calls between their increment and their decrement *)
+Theorem empty_counter_counts_the_processing_calls_in_flight progs schedule fuel :
+  sum_pd (ths (reached progs schedule fuel)) = Some (cec (shs (reached progs schedule fuel))).
+Proof. apply run_sched_pd; [apply init_inv | apply init_pd]. Qed.
+
+(* in particular: whenever every thread is between two calls (or has finished), the counter is back at 0 *)
+Corollary empty_counter_restored_at_rest progs schedule fuel :
+  Forall (fun th => code th = []) (ths (reached progs schedule fuel)) ->
+  cec (shs (reached progs schedule fuel)) = 0.
+Proof.
+  intros H. pose proof (empty_counter_counts_the_processing_calls_in_flight progs schedule fuel) as P.
+  revert P. generalize (cec (shs (reached progs schedule fuel))).
+  induction H as [|th r Hth _ IH]; intros z P; cbn [sum_pd] in P.
+  - injection P as <-. reflexivity.
+  - rewrite Hth in P. cbn [pd] in P. destruct (sum_pd r) as [y|] eqn:E; [|discriminate].
+    injection P as <-. rewrite (IH y eq_refl). reflexivity.
+Qed.
